@@ -34,8 +34,8 @@ OPERATION = ".google.longrunning.Operation"
 GET_OP = "/google.longrunning.Operations/GetOperation"
 
 VALID = ["rel_same", "fq_same", "rel_imported", "fq_imported", "rel_notimported", "fq_notimported", "empty", "empty_elsewhere",
-         "fq_nested"]
-GEN_ONLY = ["fq_otherpkg"]
+         "fq_nested", "fq_otherpkg"]
+GEN_ONLY = []
 QUIRK = ["rel_nested"]
 MISSING = ["missing"]
 UNKNOWN = ["unknown_rel", "unknown_fq", "leading_dot", "rel_empty"]
@@ -62,7 +62,7 @@ def build_api(cell):
     kinds = {cell["resp"], cell["meta"]} if cell["annotated"] else set()
     svc = File(f"{d}/jobs.proto", pkg, deps=list(apigen.STD_DEPS) + ["google/longrunning/operations.proto"])
     more = File(f"{d}/more.proto", pkg)
-    types = File(f"{d}/types.proto", pkg)
+    types = File(f"{d}/{cell.get('types_name', 'types')}.proto", pkg)
     shared = File("google/example/shared/v1/shared.proto", SHARED_PKG)
     for S in ("Resp", "Meta"):
         for f, prefix in ((svc, "Local"), (more, "Imp"), (types, "Other")):
@@ -95,6 +95,49 @@ def build_api(cell):
     if "fq_otherpkg" in kinds:
         files = [shared] + files
     return apigen.request(files, to_generate=to_gen, parameter=cell.get("parameter", "transport=grpc+rest")), pkg, pypkg
+
+
+OPS_PREFIX = "v1custom"
+
+
+def service_yaml(cell, pkg):
+    """Option file of the cell: http rules for the operations service (the REST operations client must use them)."""
+    if not cell.get("ops_http"):
+        return None
+    return {"type": "google.api.Service", "config_version": 3, "name": "jobs.example.com",
+            "apis": [{"name": pkg + ".Jobs"}],
+            "http": {"rules": [
+                {"selector": "google.longrunning.Operations.GetOperation", "get": "/%s/{name=projects/*/operations/*}" % OPS_PREFIX},
+                {"selector": "google.longrunning.Operations.CancelOperation", "post": "/%s/{name=projects/*/operations/*}:cancel" % OPS_PREFIX,
+                 "body": "*"}]}}
+
+
+def generate(cell, req, pkg, tag):
+    sy = service_yaml(cell, pkg)
+    if sy is None:
+        return gen.run_generator(req)
+    cdir = gen.case_dir(f"c08-opt-{tag}")
+    try:
+        return gen.run_generator(gen.with_params(req, [req.parameter], cdir, service_yaml=sy))
+    finally:
+        gen.rm(cdir)
+
+
+def write_pb2_modules(req, root):
+    """A <file>_pb2.py for every request file outside the generated package that is not installed (what protoc would emit)."""
+    for fp in req.proto_file:
+        if fp.name in req.file_to_generate or fp.name in apigen.std_files():
+            continue
+        path = os.path.join(root, fp.name[:-6] + "_pb2.py")
+        os.makedirs(os.path.dirname(path), exist_ok=True)
+        mod = fp.name[:-6].replace("/", ".") + "_pb2"
+        with open(path, "w") as f:
+            f.write("from google.protobuf import descriptor_pool as _descriptor_pool\n"
+                    "from google.protobuf.internal import builder as _builder\n"
+                    f"DESCRIPTOR = _descriptor_pool.Default().AddSerializedFile({fp.SerializeToString()!r})\n"
+                    "_globals = globals()\n"
+                    "_builder.BuildMessageAndEnumDescriptors(DESCRIPTOR, _globals)\n"
+                    f"_builder.BuildTopDescriptorsAndMessages(DESCRIPTOR, {mod!r}, _globals)\n")
 
 
 # ------------------------------------------------------------------ descriptor -> model term
@@ -283,7 +326,7 @@ def extract_wrapping(src, method, files, req=None):
     if not rets or ast.unparse(rets[-1].value) != "response":
         raise ValueError(f"method {method}: does not return 'response'")
     return {"returns": ret, "wrap": {
-        "module": ".".join(_dotted(c.func)[:-1]), "func": c.func.attr, "first": c.args[0].id, "client": ast.unparse(c.args[1]),
+        "module": (imports.get(_dotted(c.func)[0]) or "<not imported>").rsplit(".", 1)[-1], "func": c.func.attr, "first": c.args[0].id, "client": ast.unparse(c.args[1]),
         "result_type": proto_name_of(c.args[2], imports, files, req), "kw": c.keywords[0].arg,
         "metadata_type": proto_name_of(c.keywords[0].value, imports, files, req),
         "module_import": imports.get(_dotted(c.func)[0])}}
@@ -444,6 +487,8 @@ def grid(ctx, n):
         {"pkg_index": 0, "resp": "rel_nested", "meta": "rel_same", "annotated": True, "order": "types-first"},
         {"pkg_index": 0, "resp": "empty_elsewhere", "meta": "fq_nested", "annotated": True, "order": "svc-first"},
         {"pkg_index": 2, "resp": "fq_otherpkg", "meta": "rel_imported", "annotated": True, "order": "types-first"},
+        {"pkg_index": 1, "resp": "missing", "meta": "missing", "annotated": True, "order": "svc-first"},
+        {"pkg_index": 0, "resp": "rel_notimported", "meta": "fq_notimported", "annotated": True, "order": "svc-first", "types_name": "operation"},
     ]
     cells.extend(corpus)
     # one-kind-at-a-time sweep (the other slot is plain), then random pairs
@@ -461,7 +506,7 @@ def grid(ctx, n):
         i += 1
         cells.append({"pkg_index": r.randrange(len(PACKAGES)), "resp": r.choice(ALL_KINDS), "meta": r.choice(ALL_KINDS),
                       "annotated": r.random() < 0.9, "order": r.choice(["types-first", "svc-first"]),
-                      "raw_sibling": r.random() < 0.3})
+                      "raw_sibling": r.random() < 0.3, "types_name": r.choice(["types", "types", "operation", "operation_async"])})
     seen, out = set(), []
     for c in cells:
         h = env.canon_hash(c)
@@ -559,7 +604,7 @@ def e2e_case(args):
 
     exp = expectation(req, pkg, cell)
     quirk_sig = "lro.nested_relative_type" if (cell["annotated"] and (cell["resp"] in QUIRK or cell["meta"] in QUIRK)) else None
-    out, err = gen.run_generator(req)
+    out, err = generate(cell, req, pkg, f"{idx}-{env.canon_hash(cell)}")
     fp, svc = subject(req, pkg)
     start = next(m for m in svc.method if m.name == "Start")
     F, P, M = files_term(req), coq.s(pkg), method_term(start)
@@ -638,12 +683,13 @@ def e2e_case(args):
         if exp[0] == "raw" and g != ("raw",):
             bad(f"{which}: un-annotated Operation method: emitted start() is {g}, expected the raw Operation")
     # ---- drive
-    if got is None or got[0] not in ("lro", "raw") or {cell["resp"], cell["meta"]} & set(GEN_ONLY) and cell["annotated"]:
+    if got is None or got[0] not in ("lro", "raw"):
         res["cases"].append(({"cell": cell, "e2e": "generated-only"}, True, ["e2e-generated-only"]))
         return res
     root = gen.case_dir(f"c08-{idx}-{env.canon_hash(cell)}")
     try:
         gen.materialize(out, root)
+        write_pb2_modules(req, root)
         d = dyn.Dyn(req)
         r = env.rng("C08-hist", idx)
         rq = d.new(pkg + ".StartRequest", name="jobs/1")
@@ -710,7 +756,8 @@ def e2e_case(args):
             # where the polling went
             if tr == "rest":
                 polls = [c for c in o["http_calls"][1:]]
-                ok_paths = all(c["verb"] == "GET" and c["path"] == f"/{pkg.split('.')[-1]}/{OP_NAME}" for c in polls)
+                prefix = OPS_PREFIX if cell.get("ops_http") else pkg.split(".")[-1]
+                ok_paths = all(c["verb"] == "GET" and c["path"] == f"/{prefix}/{OP_NAME}" for c in polls)
                 first_ok = o["http_calls"] and o["http_calls"][0]["path"] == "/v1/jobs/1:start"
             else:
                 polls = o["grpc_calls"][1:]
@@ -796,8 +843,10 @@ def e2e_cells(ctx, n):
         {"pkg_index": 2, "resp": "fq_notimported", "meta": "rel_notimported", "annotated": True, "order": "svc-first", "raw_sibling": True},
         {"pkg_index": 0, "resp": "rel_same", "meta": "missing", "annotated": True, "order": "svc-first"},
         {"pkg_index": 0, "resp": "rel_nested", "meta": "rel_same", "annotated": True, "order": "types-first"},
-        {"pkg_index": 1, "resp": "fq_otherpkg", "meta": "fq_imported", "annotated": True, "order": "types-first"},
+        {"pkg_index": 1, "resp": "fq_otherpkg", "meta": "fq_imported", "annotated": True, "order": "types-first", "ops_http": True},
         {"pkg_index": 2, "resp": "unknown_rel", "meta": "rel_same", "annotated": True, "order": "types-first"},
+        {"pkg_index": 0, "resp": "rel_notimported", "meta": "fq_notimported", "annotated": True, "order": "svc-first", "types_name": "operation"},
+        {"pkg_index": 1, "resp": "missing", "meta": "missing", "annotated": True, "order": "svc-first"},
     ]
     i = 0
     while len(cells) < n:
@@ -805,7 +854,8 @@ def e2e_cells(ctx, n):
         i += 1
         pool = VALID * 3 + GEN_ONLY + QUIRK + MISSING + UNKNOWN
         c = {"pkg_index": r.randrange(len(PACKAGES)), "resp": r.choice(pool), "meta": r.choice(pool),
-             "annotated": r.random() < 0.88, "order": r.choice(["types-first", "svc-first"]), "raw_sibling": r.random() < 0.25}
+             "annotated": r.random() < 0.88, "order": r.choice(["types-first", "svc-first"]), "raw_sibling": r.random() < 0.25,
+             "types_name": r.choice(["types", "types", "operation", "operation_async"]), "ops_http": r.random() < 0.3}
         if c not in cells:
             cells.append(c)
     return cells[:n]
@@ -844,7 +894,7 @@ def run_e2e(ctx, cells, tier_all, full=True):
 
 def run(ctx):
     run_schema(ctx, grid(ctx, ctx.n(70, 700)))
-    run_e2e(ctx, e2e_cells(ctx, ctx.n(12, 90)), tier_all=not ctx.quick())
+    run_e2e(ctx, e2e_cells(ctx, ctx.n(14, 90)), tier_all=not ctx.quick())
 
 
 def search(ctx, broken):
